@@ -168,8 +168,14 @@ def run(repo: Repo, rep: Report) -> None:
         rep.ob("C20.b-enqueue-discipline", mod, "SPARQLUpdateStore.commit", "self._update(...)", False, "commit sends nothing", node=cm)
     for s in sends:
         arg = s.args[0] if s.args else None
+        # the queue itself, or a local name that holds it (taken before the queue attribute is re-bound)
+        aliases = {norm(a.targets[0]) for a in own_nodes(cm) if isinstance(a, ast.Assign) and isinstance(a.targets[0], ast.Name) and norm(a.value) == "self._edits"}
+        for a in own_nodes(cm):
+            if isinstance(a, ast.Assign) and isinstance(a.targets[0], ast.Name) and norm(a.targets[0]) in aliases and norm(a.value) != "self._edits":
+                aliases.discard(norm(a.targets[0]))  # re-bound to something else
         ok = isinstance(arg, ast.Call) and isinstance(arg.func, ast.Attribute) and arg.func.attr == "join" and len(arg.args) == 1 \
-            and norm(arg.args[0]) == "self._edits"
+            and (norm(arg.args[0]) == "self._edits" or norm(arg.args[0]) in aliases)
+        via_alias = ok and norm(arg.args[0]) in aliases
         rep.ob("C20.b-enqueue-discipline", mod, "SPARQLUpdateStore.commit", s, ok,
                "sends all queued edits joined in queue order" if ok else "commit does not send `<sep>.join(self._edits)` (order/multiplicity of queued edits may change): %s" % norm(arg)[:80], node=s)
         g = CFG(cm)
@@ -180,7 +186,12 @@ def run(repo: Repo, rep: Report) -> None:
                     and (isinstance(st.value, ast.Constant) and st.value.value is None or isinstance(st.value, ast.List) and not st.value.elts):
                 clears.add(nd.id)
         sn = g.node_of(s, mod)
-        ok = bool(clears) and g.must_pass_after(sn, clears) and not any(sn in g.reach(c) for c in clears)
+        # (re-binding the attribute before the send does not change what is sent when the send reads the queue through a local name)
+        ok = bool(clears) and g.must_pass_after(sn, clears) and (via_alias or not any(sn in g.reach(c) for c in clears))
+        if via_alias:
+            # the local name must have been taken before any clearing
+            an = [g.node_of(a, mod) for a in own_nodes(cm) if isinstance(a, ast.Assign) and norm(a.targets[0]) == norm(arg.args[0])]
+            ok = ok and all(g.must_pass_before(sn, {x}) for x in an) and not any(x in g.reach(c) for x in an for c in clears)
         rep.ob("C20.b-enqueue-discipline", mod, "SPARQLUpdateStore.commit", "queue cleared after sending", ok,
                "cleared after the send" if ok else "queue is not cleared on every path after sending (edits would be re-sent) or is cleared before", node=cm)
     rb_calls = [c for c in _self_calls(rb)]
